@@ -1467,7 +1467,12 @@ class Engine:
                 return VInt(len(v.items) - v.pos, "usize")
             raise Unsupported("Len of %r" % (v,))
         if k == "repeat":
-            raise Unsupported("array repeat")
+            # [value; N] with a literal length
+            m_ = re.match(r"^(\d+)(?:_usize)?$", rv[2].replace("const ", "").strip())
+            if not m_ or int(m_.group(1)) > 4096:
+                raise Unsupported("array repeat with length %s" % rv[2])
+            v = self.eval_operand(fr, rv[1])
+            return VSeq([clone(v) for _ in range(int(m_.group(1)))], "vec")
         raise Unsupported("rvalue " + k)
 
     def binop(self, op, a, b):
